@@ -188,8 +188,10 @@ type ctxKey struct{}
 
 func idHost(id int) string   { return fmt.Sprintf("h%d.example", id) }
 func idMethod(id int) string { return []string{"GET", "POST", "PUT", "DELETE"}[id%4] }
-func idRaddr(id int) string  { return fmt.Sprintf("10.%d.%d.%d:%d", id>>16&255, id>>8&255, id&255, 1024+id%60000) }
-func idURI(id int) string    { return fmt.Sprintf("/p/%d?id=%d&x=%%20", id, id) }
+func idRaddr(id int) string {
+	return fmt.Sprintf("10.%d.%d.%d:%d", id>>16&255, id>>8&255, id&255, 1024+id%60000)
+}
+func idURI(id int) string { return fmt.Sprintf("/p/%d?id=%d&x=%%20", id, id) }
 
 // idRequestURI is what the client put on the request line: for every third request the absolute form,
 // which differs from r.URL.RequestURI().
@@ -199,7 +201,7 @@ func idRequestURI(id int) string {
 	}
 	return idURI(id)
 }
-func idBody(id int) string   { return fmt.Sprintf("body-%d-%s", id, strings.Repeat("z", id%50)) }
+func idBody(id int) string { return fmt.Sprintf("body-%d-%s", id, strings.Repeat("z", id%50)) }
 
 // script: what the invocation for id writes
 func idKind(id int) int { return (id / 4) % 4 }
@@ -482,7 +484,8 @@ func batch(e *env, h http.Handler, ids []int, k int, order []int) []response {
 	resps := make([]response, len(ids))
 	var b *barrier
 	if k > 0 {
-		b = &barrier{k: k, arrived: make(chan int, k), release: map[int]chan struct{}{}}
+		// capacity len(ids): an invocation that (wrongly) sees another request's id may arrive too
+		b = &barrier{k: k, arrived: make(chan int, len(ids)), release: map[int]chan struct{}{}}
 		for _, id := range ids[:k] {
 			b.release[id] = make(chan struct{})
 		}
@@ -491,18 +494,29 @@ func batch(e *env, h http.Handler, ids []int, k int, order []int) []response {
 		e.barrier.Store(nil)
 	}
 	var wg sync.WaitGroup
+	finished := make(chan struct{}, len(ids))
 	for i, id := range ids {
 		wg.Add(1)
 		go func() {
 			defer wg.Done()
+			defer func() { finished <- struct{}{} }()
 			rec := httptest.NewRecorder()
 			h.ServeHTTP(rec, mkRequest(id))
 			resps[i] = response{id, rec.Code, rec.Body.String(), rec.Header().Get("X-Id")}
 		}()
 	}
 	if b != nil {
-		for i := 0; i < k; i++ {
-			<-b.arrived
+		// every invocation either arrives at the barrier and parks, or finishes: wait until k are parked or
+		// nobody is left who could still arrive (only possible when invocations saw foreign ids - which inner
+		// has reported), so the wait is bounded by logical progress, not by a clock
+		arrivedN, finishedN := 0, 0
+		for arrivedN < k && arrivedN+finishedN < len(ids) {
+			select {
+			case <-b.arrived:
+				arrivedN++
+			case <-finished:
+				finishedN++
+			}
 		}
 		for _, oi := range order {
 			close(b.release[ids[oi]])
